@@ -165,10 +165,12 @@ def rand_msc(rng):
 
 def rand_mef(rng, node_mode=False, max_edges=6):
     """MinErrorFlow instance: (kwargs, info).  Tiny graphs (<= max_edges edges), values 0..6."""
+    cyclic = rng.random() < 0.45
     while True:
-        cyclic = rng.random() < 0.45
-        G0 = gen.rand_cyclic(rng, nmax=4) if cyclic else gen.rand_dag(rng, nmax=rng.choice([3, 4, 5]))
+        G0 = gen.rand_cyclic(rng, nmax=rng.choice([2, 3, 3, 4])) if cyclic else gen.rand_dag(rng, nmax=rng.choice([3, 4, 5]))
         if G0.number_of_edges() > max_edges or (node_mode and G0.number_of_nodes() > 5):
+            continue
+        if cyclic and nx.is_directed_acyclic_graph(G0):
             continue
         break
     is_int = rng.random() < 0.6
